@@ -89,7 +89,112 @@ SelPool == <<
 SelSeqs(n) == UNION {[1..k -> DOMAIN SelPool] : k \in 0..n}
 AlertMsgs == {[ts |-> None, ents |-> <<AL(1, [i \in DOMAIN q |-> SelPool[q[i]]])>>] : q \in SelSeqs(MaxEnts)}
 
+
+(* ---------------- pool "fields": C02, one field at a time ---------------- *)
+RECURSIVE SetPath(_, _, _)
+SetPath(r, p, v) == IF p = <<>> THEN v ELSE [r EXCEPT ![Head(p)] = SetPath(r[Head(p)], Tail(p), v)]
+
+FullEv(t, d, u) == [time |-> Some(t), delay |-> Some(d), unc |-> Some(u)]
+BaseTD1 == [id |-> Some(1), route |-> Some(1), dir |-> Some(1), st |-> Some([h |-> 25, m |-> 10, s |-> 5, ok |-> TRUE]),
+            sd |-> Some([day |-> 1, ok |-> TRUE]), sr |-> Some(1)]
+BaseMsg ==
+    [ts |-> Some(3),
+     ents |-> <<
+       [k |-> "tu", trip |-> Some(BaseTD1), veh |-> Some([id |-> Some(1), label |-> Some(1), plate |-> Some(1)]),
+        stus |-> << [seq |-> Some(1), stop |-> Some(1), arr |-> Some(FullEv(2, 4, 1)), dep |-> Some(FullEv(3, 1, 3)), sr |-> Some(1)],
+                    [seq |-> None, stop |-> Some(2), arr |-> Some(NoEv), dep |-> None, sr |-> None] >>],
+       [k |-> "vp", trip |-> Some([NoTD EXCEPT !.id = Some(2), !.route = Some(2)]), veh |-> Some(VDid(2)),
+        pos |-> Some([lat |-> 1, lon |-> 2, bearing |-> Some(3), odo |-> Some(1), speed |-> Some(1)]),
+        css |-> Some(2), stop |-> Some(3), status |-> Some(1), ts |-> Some(3), cong |-> Some(2), occ |-> Some(3), occPct |-> Some(2)],
+       [k |-> "al", id |-> 1, periods |-> <<[s |-> Some(3), e |-> Some(4)], [s |-> None, e |-> Some(1)]>>,
+        sels |-> <<[agency |-> Some(1), route |-> Some(1), rtype |-> Some(3), dir |-> Some(0), trip |-> None, stop |-> Some(1)]>>,
+        cause |-> Some(3), effect |-> Some(4),
+        header |-> <<[text |-> 1, lang |-> Some(1)], [text |-> 2, lang |-> None]>>,
+        desc |-> <<[text |-> 2, lang |-> Some(2)]>>, url |-> <<[text |-> 3, lang |-> Some(1)]>>],
+       VP(None, None, Pos1, None)
+     >>]
+
+OptVals(hi) == {None} \cup {Some(v) : v \in 0..hi}
+E(i) == <<"ents", i>>
+TDFields(prefix) ==
+    { [p |-> prefix \o <<"id">>, vs |-> OptVals(3)], [p |-> prefix \o <<"route">>, vs |-> OptVals(2)],
+      [p |-> prefix \o <<"dir">>, vs |-> OptVals(1)],
+      [p |-> prefix \o <<"st">>, vs |-> {None, Some([h |-> 0, m |-> 0, s |-> 0, ok |-> TRUE]), Some([h |-> 23, m |-> 59, s |-> 59, ok |-> TRUE]),
+                                         Some([h |-> 47, m |-> 30, s |-> 15, ok |-> TRUE]), Some([h |-> 7, m |-> 5, s |-> 3, ok |-> FALSE])}],
+      [p |-> prefix \o <<"sd">>, vs |-> {None} \cup {Some([day |-> d, ok |-> TRUE]) : d \in 1..6} \cup {Some([day |-> 3, ok |-> FALSE])}],
+      [p |-> prefix \o <<"sr">>, vs |-> OptVals(3)] }
+EvFields(prefix) ==
+    { [p |-> prefix, vs |-> {None, Some(NoEv)}],
+      [p |-> prefix \o <<1, "time">>, vs |-> OptVals(5)], [p |-> prefix \o <<1, "delay">>, vs |-> OptVals(5)],
+      [p |-> prefix \o <<1, "unc">>, vs |-> OptVals(4)] }
+FieldTable ==
+    {[p |-> <<"ts">>, vs |-> OptVals(7)]}
+    \cup TDFields(E(1) \o <<"trip", 1>>)
+    \cup {[p |-> E(1) \o <<"veh">>, vs |-> {None}],
+          [p |-> E(1) \o <<"veh", 1, "id">>, vs |-> {None, Some(3)}], [p |-> E(1) \o <<"veh", 1, "label">>, vs |-> OptVals(2)],
+          [p |-> E(1) \o <<"veh", 1, "plate">>, vs |-> OptVals(2)],
+          [p |-> E(1) \o <<"stus">>, vs |-> {<<>>}],
+          [p |-> E(1) \o <<"stus", 1, "seq">>, vs |-> OptVals(4)], [p |-> E(1) \o <<"stus", 1, "stop">>, vs |-> OptVals(3)],
+          [p |-> E(1) \o <<"stus", 1, "sr">>, vs |-> OptVals(3)], [p |-> E(1) \o <<"stus", 2, "stop">>, vs |-> OptVals(3)]}
+    \cup EvFields(E(1) \o <<"stus", 1, "arr">>) \cup EvFields(E(1) \o <<"stus", 1, "dep">>)
+    \cup {[p |-> E(1) \o <<"stus", 2, "dep">>, vs |-> {Some(FullEv(1, 2, 2))}]}
+    \cup TDFields(E(2) \o <<"trip", 1>>)
+    \cup {[p |-> E(2) \o <<"trip">>, vs |-> {None}], [p |-> E(2) \o <<"veh">>, vs |-> {None, Some(NoVD)}],
+          [p |-> E(2) \o <<"veh", 1, "id">>, vs |-> {None, Some(0), Some(3)}], [p |-> E(2) \o <<"veh", 1, "label">>, vs |-> OptVals(2)],
+          [p |-> E(2) \o <<"veh", 1, "plate">>, vs |-> OptVals(2)],
+          [p |-> E(2) \o <<"pos">>, vs |-> {None}],
+          [p |-> E(2) \o <<"pos", 1, "lat">>, vs |-> 0..5], [p |-> E(2) \o <<"pos", 1, "lon">>, vs |-> 0..5],
+          [p |-> E(2) \o <<"pos", 1, "bearing">>, vs |-> OptVals(5)], [p |-> E(2) \o <<"pos", 1, "odo">>, vs |-> OptVals(3)],
+          [p |-> E(2) \o <<"pos", 1, "speed">>, vs |-> OptVals(5)],
+          [p |-> E(2) \o <<"css">>, vs |-> OptVals(4)], [p |-> E(2) \o <<"stop">>, vs |-> OptVals(3)],
+          [p |-> E(2) \o <<"status">>, vs |-> OptVals(2)], [p |-> E(2) \o <<"ts">>, vs |-> OptVals(7)],
+          [p |-> E(2) \o <<"cong">>, vs |-> OptVals(4)], [p |-> E(2) \o <<"occ">>, vs |-> OptVals(8)],
+          [p |-> E(2) \o <<"occPct">>, vs |-> OptVals(4)]}
+    \cup {[p |-> E(3) \o <<"id">>, vs |-> 0..3], [p |-> E(3) \o <<"periods">>, vs |-> {<<>>}],
+          [p |-> E(3) \o <<"periods", 1, "s">>, vs |-> OptVals(7)], [p |-> E(3) \o <<"periods", 1, "e">>, vs |-> OptVals(7)],
+          [p |-> E(3) \o <<"cause">>, vs |-> {None} \cup {Some(v) : v \in 1..12}],
+          [p |-> E(3) \o <<"effect">>, vs |-> {None} \cup {Some(v) : v \in 1..11}],
+          [p |-> E(3) \o <<"header">>, vs |-> {<<>>}], [p |-> E(3) \o <<"desc">>, vs |-> {<<>>}], [p |-> E(3) \o <<"url">>, vs |-> {<<>>}],
+          [p |-> E(3) \o <<"header", 1, "text">>, vs |-> 0..3], [p |-> E(3) \o <<"header", 1, "lang">>, vs |-> OptVals(2)],
+          [p |-> E(3) \o <<"desc", 1, "text">>, vs |-> 0..3], [p |-> E(3) \o <<"url", 1, "lang">>, vs |-> OptVals(2)],
+          [p |-> E(3) \o <<"sels", 1, "agency">>, vs |-> OptVals(2)], [p |-> E(3) \o <<"sels", 1, "route">>, vs |-> OptVals(3)],
+          [p |-> E(3) \o <<"sels", 1, "rtype">>, vs |-> {None} \cup {Some(v) : v \in {0, 1, 2, 3, 4, 5, 6, 7, 11, 12, 8, 99}}],
+          [p |-> E(3) \o <<"sels", 1, "dir">>, vs |-> OptVals(1)], [p |-> E(3) \o <<"sels", 1, "stop">>, vs |-> OptVals(3)],
+          [p |-> E(3) \o <<"sels", 1, "trip">>, vs |-> {Some(BaseTD1), Some(TDid(3))}]}
+    \cup {[p |-> <<"ents">>, vs |-> {<<>>}]}
+FieldMsgs == {BaseMsg} \cup UNION {{SetPath(BaseMsg, f.p, v) : v \in f.vs} : f \in FieldTable}
+
+(* ---------------- pool "random": C02, every optional field independently ---------------- *)
+(* tlc -simulate; entity i uses trip id i and vehicle id i so that messages stay conflict-free *)
+R(S) == RandomElement({x \in S : pending = pending})
+ROpt(hi) == R(OptVals(hi))
+RandTD(i) == [id |-> Some(i), route |-> ROpt(2), dir |-> ROpt(1),
+              st |-> R({None, Some([h |-> R(0..47), m |-> R(0..59), s |-> R(0..59), ok |-> TRUE]), Some([h |-> 3, m |-> 0, s |-> 0, ok |-> FALSE])}),
+              sd |-> R({None} \cup {Some([day |-> d, ok |-> TRUE]) : d \in 1..6}), sr |-> ROpt(3)]
+RandEv == R({None, Some([time |-> ROpt(5), delay |-> ROpt(5), unc |-> ROpt(4)])})
+RandStu == [seq |-> ROpt(4), stop |-> ROpt(3), arr |-> RandEv, dep |-> RandEv, sr |-> ROpt(3)]
+RandStus == LET n == R(0..3) IN [j \in 1..n |-> RandStu]
+RandVD(i) == [id |-> Some(i), label |-> ROpt(2), plate |-> ROpt(2)]
+RandTxt == LET n == R(0..2) IN [j \in 1..n |-> [text |-> R(0..3), lang |-> ROpt(2)]]
+RandSel == [agency |-> ROpt(2), route |-> ROpt(3), rtype |-> R({None, Some(0), Some(3), Some(12), Some(99)}), dir |-> ROpt(1),
+            trip |-> None, stop |-> ROpt(3)]
+RandEnt(i) ==
+    LET kind == R({"tu", "vp", "vp0", "al"}) IN
+    CASE kind = "tu" -> [k |-> "tu", trip |-> Some(RandTD(i)), veh |-> R({None, Some(RandVD(i))}), stus |-> RandStus]
+      [] kind = "vp" -> [k |-> "vp", trip |-> R({None, Some(RandTD(i))}), veh |-> Some(RandVD(i)),
+                         pos |-> R({None, Some([lat |-> R(0..5), lon |-> R(0..5), bearing |-> ROpt(5), odo |-> ROpt(3), speed |-> ROpt(5)])}),
+                         css |-> ROpt(4), stop |-> ROpt(3), status |-> ROpt(2), ts |-> ROpt(7), cong |-> ROpt(4), occ |-> ROpt(8), occPct |-> ROpt(4)]
+      [] kind = "vp0" -> [k |-> "vp", trip |-> None, veh |-> None,
+                         pos |-> Some([lat |-> R(0..5), lon |-> R(0..5), bearing |-> None, odo |-> None, speed |-> None]),
+                         css |-> ROpt(4), stop |-> Some(i % 4), status |-> None, ts |-> ROpt(7), cong |-> None, occ |-> None, occPct |-> None]
+      [] kind = "al" -> [k |-> "al", id |-> R(0..5), periods |-> LET n == R(0..2) IN [j \in 1..n |-> [s |-> ROpt(7), e |-> ROpt(7)]],
+                         sels |-> LET n == R(0..3) IN [j \in 1..n |-> RandSel],
+                         cause |-> R({None} \cup {Some(v) : v \in 1..12}), effect |-> R({None} \cup {Some(v) : v \in 1..11}),
+                         header |-> RandTxt, desc |-> RandTxt, url |-> RandTxt]
+RandMsg == TLCEval([ts |-> ROpt(7), ents |-> LET n == R(0..5) IN TLCEval([i \in 1..n |-> TLCEval(RandEnt(i))])])
+
 Msgs == CASE Pool = "merge" -> MergeMsgs
+          [] Pool = "fields" -> FieldMsgs
           [] Pool = "alerts" -> AlertMsgs
 
 (* ---------------- the machine ---------------- *)
@@ -101,8 +206,19 @@ Merge(i) == /\ pc = "merge" /\ i \in pending
             /\ pending' = pending \ {i} /\ order' = Append(order, i)
             /\ UNCHANGED <<msg, pc>>
 Finish == /\ pc = "merge" /\ pending = {} /\ pc' = "done" /\ UNCHANGED <<msg, pending, order, ms>>
-Next == (\E i \in pending : Merge(i)) \/ Finish
+(* every order for the merge and alert pools; feed order only for the (large) field-variation messages *)
+Next == (\E i \in pending : (Pool \in {"merge", "alerts"} \/ i = SetMin(pending)) /\ Merge(i)) \/ Finish
 Spec == Init /\ [][Next]_vars
+
+(* tlc -simulate: a fresh random message per behaviour, merged in identity order *)
+InitRandom == /\ msg = [ts |-> None, ents |-> <<>>] /\ pending = {} /\ order = <<>> /\ ms = EmptyState /\ pc = "choose"
+Choose == /\ pc = "choose"
+          /\ msg' = RandMsg
+          /\ pending' = DOMAIN msg'.ents /\ pc' = "merge" /\ UNCHANGED <<order, ms>>
+MergeNext == /\ pc = "merge" /\ pending # {}
+             /\ Merge(SetMin(pending))
+NextRandom == Choose \/ MergeNext \/ Finish
+SpecRandom == InitRandom /\ [][NextRandom]_vars
 
 Ents == [i \in DOMAIN order |-> msg.ents[order[i]]]
 Result == Resolve(ms, msg.ts)
